@@ -168,7 +168,7 @@ func c04Run(c *vfCtx, cs c04Case) {
 		for _, e := range cs.Entries {
 			k[e.Test]++
 			if standalone {
-				m.sfiles[strings.Replace(vfStandaloneGeneric(e.Test, call("", "")), "%d", fmt.Sprint(k[e.Test]), 1)] = e.Old
+				m.sfiles[vfStandaloneName(vfStandaloneGeneric(e.Test, call("", "")), k[e.Test])] = e.Old
 			} else {
 				m.preload("f.snap", fmt.Sprintf("%s - %d", e.Test, k[e.Test]), e.Old)
 			}
